@@ -165,6 +165,7 @@ type Sim struct {
 	stopWhy  string
 
 	pilotCalls []string
+	stmtFailHit bool
 	bHist      *[]*dcsHist
 }
 
